@@ -44,6 +44,8 @@ type wireCase struct {
 	Seq    json.RawMessage   `json:"seq,omitempty"`
 	SeqEnc json.RawMessage   `json:"seqenc,omitempty"`
 	Scheds json.RawMessage   `json:"scheds,omitempty"`
+	Want   json.RawMessage   `json:"want,omitempty"`
+	AsIs   json.RawMessage   `json:"asis,omitempty"`
 	Extra  map[string]json.RawMessage `json:"-"`
 	Pid    string            `json:"pid"`
 }
@@ -124,7 +126,44 @@ type wireRun struct {
 }
 
 // RunWire is the pipeline "TLC generates -> the real code executes -> TLC judges".
-func RunWire(c *Ctx, sp *WireSpec) (int, error) {
+func RunWire(c *Ctx, sp *WireSpec) (int, error) { return RunWireParts(c, []*WireSpec{sp}) }
+
+// RunWireParts runs several universes for one property and merges their coverage.
+func RunWireParts(c *Ctx, parts []*WireSpec) (int, error) {
+	var merged Coverage
+	for i, sp := range parts {
+		sub := *c
+		sub.Work = filepath.Join(c.Work, fmt.Sprintf("part%d", i))
+		_ = os.MkdirAll(sub.Work, 0o755)
+		cov, code, err := runWirePart(c, sub.Work, sp)
+		if err != nil || code == 2 {
+			return code, err
+		}
+		if merged == nil {
+			merged = cov
+			continue
+		}
+		for k, v := range cov {
+			switch x := v.(type) {
+			case int:
+				if y, ok := merged[k].(int); ok {
+					merged[k] = x + y
+				}
+			case []interface{}:
+				if y, ok := merged[k].([]interface{}); ok && k == "samples" {
+					merged[k] = append(y, x...)
+				}
+			case string:
+				if y, ok := merged[k].(string); ok && k == "rule" {
+					merged[k] = y + " || part " + fmt.Sprint(i+1) + ": " + x
+				}
+			}
+		}
+	}
+	return c.Finish(parts[0].Level, merged, parts[0].Assume), nil
+}
+
+func runWirePart(c *Ctx, work string, sp *WireSpec) (Coverage, int, error) {
 	specDir := filepath.Join(Root, "spec")
 	// 1. TLC enumerates the cases and checks the design theorems on them
 	consts := map[string]string{"Tier": fmt.Sprintf("%q", c.Tier), "Seed": fmt.Sprint(c.Seed)}
@@ -135,7 +174,7 @@ func RunWire(c *Ctx, sp *WireSpec) (int, error) {
 	bySid := map[int]int{}
 	var mu sync.Mutex
 	var parseErr error
-	g := &tlc.Run{SpecDir: specDir, Scratch: filepath.Join(c.Work, "gen"), Module: sp.GenModule,
+	g := &tlc.Run{SpecDir: specDir, Scratch: filepath.Join(work, "gen"), Module: sp.GenModule,
 		Cfg: genCfg(consts, sp.GenInvs), Workers: 16, Timeout: 20 * time.Minute,
 		OnLine: func(tag, js string) {
 			mu.Lock()
@@ -159,13 +198,13 @@ func RunWire(c *Ctx, sp *WireSpec) (int, error) {
 		}}
 	gr, err := g.Exec()
 	if err != nil {
-		return 2, infra("case generation: %v", err)
+		return nil, 2, infra("case generation: %v", err)
 	}
 	if parseErr != nil {
-		return 2, infra("case generation: bad JSON from TLC: %v", parseErr)
+		return nil, 2, infra("case generation: bad JSON from TLC: %v", parseErr)
 	}
 	if gr.Violated != "" {
-		return 2, infra("the design-level theorem %s fails on the ideal specification (spec bug):\n%s", gr.Violated, strings.Join(gr.Tail, "\n"))
+		return nil, 2, infra("the design-level theorem %s fails on the ideal specification (spec bug):\n%s", gr.Violated, strings.Join(gr.Tail, "\n"))
 	}
 	run.genRes = gr
 	sort.Slice(run.schemas, func(i, j int) bool { return run.schemas[i].Sid < run.schemas[j].Sid })
@@ -192,7 +231,7 @@ func RunWire(c *Ctx, sp *WireSpec) (int, error) {
 		run.cases = kept
 	}
 	if len(run.cases) == 0 {
-		return 2, infra("no cases generated")
+		return nil, 2, infra("no cases generated")
 	}
 	// 2. the real generator on every (schema, option set)
 	plans := map[string]*genrun.Plan{}
@@ -203,7 +242,7 @@ func RunWire(c *Ctx, sp *WireSpec) (int, error) {
 		if plans[cs.Pid] == nil {
 			var sch abs.Schema
 			if err := json.Unmarshal(run.schemas[bySid[cs.Sid]].Defs, &sch); err != nil {
-				return 2, infra("schema %d: %v", cs.Sid, err)
+				return nil, 2, infra("schema %d: %v", cs.Sid, err)
 			}
 			p := &genrun.Plan{Pid: cs.Pid, Sid: cs.Sid, Schema: sch, Opts: cs.Opts}
 			plans[cs.Pid] = p
@@ -211,9 +250,9 @@ func RunWire(c *Ctx, sp *WireSpec) (int, error) {
 		}
 	}
 	t0 := time.Now()
-	ws, err := genrun.Build(filepath.Join(c.Work, "mod"), planList, sp.Op != "generate")
+	ws, err := genrun.Build(filepath.Join(work, "mod"), planList, sp.Op != "generate")
 	if err != nil {
-		return 2, infra("%v", err)
+		return nil, 2, infra("%v", err)
 	}
 	run.ws = ws
 	buildSecs := time.Since(t0).Seconds()
@@ -231,7 +270,7 @@ func RunWire(c *Ctx, sp *WireSpec) (int, error) {
 		}
 	}
 	if rejected*4 > len(planList) {
-		return 2, infra("the generator rejected %d of %d well-formed schemas (e.g. %s): cannot exercise generated code", rejected, len(planList), rejSample)
+		return nil, 2, infra("the generator rejected %d of %d well-formed schemas (e.g. %s): cannot exercise generated code", rejected, len(planList), rejSample)
 	}
 	// packages file for the worker
 	var pkgLines []map[string]interface{}
@@ -241,9 +280,9 @@ func RunWire(c *Ctx, sp *WireSpec) (int, error) {
 			pkgLines = append(pkgLines, map[string]interface{}{"pid": p.Pid, "sid": p.Sid, "defs": run.schemas[bySid[p.Sid]].Defs, "opts": p.Opts})
 		}
 	}
-	pkgFile := filepath.Join(c.Work, "packages.ndjson")
+	pkgFile := filepath.Join(work, "packages.ndjson")
 	if err := writeNDJSON(pkgFile, len(pkgLines), func(i int) interface{} { return pkgLines[i] }); err != nil {
-		return 2, infra("%v", err)
+		return nil, 2, infra("%v", err)
 	}
 	// 3. commands
 	var cmds []*sup.Cmd
@@ -292,10 +331,10 @@ func RunWire(c *Ctx, sp *WireSpec) (int, error) {
 		}
 		cmds = append(cmds, &sup.Cmd{Cid: i + 1, Op: sp.Op, JSON: j})
 	}
-	evPath := filepath.Join(c.Work, "events.ndjson")
+	evPath := filepath.Join(work, "events.ndjson")
 	evf, err := os.Create(evPath)
 	if err != nil {
-		return 2, infra("%v", err)
+		return nil, 2, infra("%v", err)
 	}
 	evw := bufio.NewWriterSize(evf, 1<<20)
 	nEvents := 0
@@ -333,11 +372,11 @@ func RunWire(c *Ctx, sp *WireSpec) (int, error) {
 			eventLines = append(eventLines, append([]byte{}, line...))
 		})
 	if err != nil {
-		return 2, infra("worker supervision: %v", err)
+		return nil, 2, infra("worker supervision: %v", err)
 	}
 	execSecs := time.Since(t1).Seconds()
 	if harnessErrs > 0 {
-		return 2, infra("%d harness errors in the worker, e.g. %s", harnessErrs, harnessErrSample)
+		return nil, 2, infra("%d harness errors in the worker, e.g. %s", harnessErrs, harnessErrSample)
 	}
 	_ = evw
 	evf.Close()
@@ -357,16 +396,16 @@ func RunWire(c *Ctx, sp *WireSpec) (int, error) {
 		nEvents = len(eventLines)
 	}
 	if nEvents == 0 {
-		return 2, infra("the worker produced no observations")
+		return nil, 2, infra("the worker produced no observations")
 	}
 	// 4. TLC judges: shard events over parallel TLC processes
-	schemasPath := filepath.Join(c.Work, "schemas.ndjson")
+	schemasPath := filepath.Join(work, "schemas.ndjson")
 	if err := writeNDJSON(schemasPath, len(run.schemas), func(i int) interface{} { return run.schemas[i] }); err != nil {
-		return 2, infra("%v", err)
+		return nil, 2, infra("%v", err)
 	}
-	casesPath := filepath.Join(c.Work, "cases.ndjson")
+	casesPath := filepath.Join(work, "cases.ndjson")
 	if err := writeNDJSON(casesPath, len(run.cases), func(i int) interface{} { return run.cases[i] }); err != nil {
-		return 2, infra("%v", err)
+		return nil, 2, infra("%v", err)
 	}
 	devs := c.OpenDevs(sp.DevProps...)
 	nShards := 12
@@ -394,7 +433,7 @@ func RunWire(c *Ctx, sp *WireSpec) (int, error) {
 		wg.Add(1)
 		go func(s, lo, hi int) {
 			defer wg.Done()
-			dir := filepath.Join(c.Work, fmt.Sprintf("judge%d", s))
+			dir := filepath.Join(work, fmt.Sprintf("judge%d", s))
 			_ = os.MkdirAll(dir, 0o755)
 			ep := filepath.Join(dir, "events.ndjson")
 			f, err := os.Create(ep)
@@ -446,7 +485,7 @@ func RunWire(c *Ctx, sp *WireSpec) (int, error) {
 	var verdicts []verdict
 	for s := range results {
 		if results[s].err != nil {
-			return 2, infra("judge shard %d: %v", s, results[s].err)
+			return nil, 2, infra("judge shard %d: %v", s, results[s].err)
 		}
 		if results[s].res == nil {
 			continue
@@ -459,20 +498,20 @@ func RunWire(c *Ctx, sp *WireSpec) (int, error) {
 		verdicts = append(verdicts, results[s].verdicts...)
 	}
 	if total["ok"]+total["na"]+total["known"]+total["viol"] != nEvents {
-		return 2, infra("judge consumed %d of %d events", total["ok"]+total["na"]+total["known"]+total["viol"], nEvents)
+		return nil, 2, infra("judge consumed %d of %d events", total["ok"]+total["na"]+total["known"]+total["viol"], nEvents)
 	}
 	// 4b. C05: the design model under all fragmentations, and the read-level traces against StreamAbs
 	streamCov := map[string]interface{}{}
 	if sp.Op == "stream" {
 		maxSid := 135
-		mc := &tlc.Run{SpecDir: specDir, Scratch: filepath.Join(c.Work, "streammc"), Module: "StreamCodec", Workers: 16, Timeout: 20 * time.Minute,
+		mc := &tlc.Run{SpecDir: specDir, Scratch: filepath.Join(work, "streammc"), Module: "StreamCodec", Workers: 16, Timeout: 20 * time.Minute,
 			Cfg: fmt.Sprintf("CONSTANTS\n  Tier = %q\n  Seed = %d\n  MaxSid = %d\nSPECIFICATION Spec\nINVARIANTS NoOverAsk ExactConsumption FaultSurfaces\nPROPERTIES ReturnAtEnd RefinesAbs Terminates\nCHECK_DEADLOCK FALSE\n", c.Tier, c.Seed, maxSid)}
 		mr, err := mc.Exec()
 		if err != nil {
-			return 2, infra("StreamCodec model check: %v", err)
+			return nil, 2, infra("StreamCodec model check: %v", err)
 		}
 		if mr.Violated != "" {
-			return 2, infra("StreamCodec.tla violates %s on the ideal design (spec bug):\n%s", mr.Violated, strings.Join(mr.Tail, "\n"))
+			return nil, 2, infra("StreamCodec.tla violates %s on the ideal design (spec bug):\n%s", mr.Violated, strings.Join(mr.Tail, "\n"))
 		}
 		states += mr.Distinct
 		transitions += mr.Generated
@@ -502,7 +541,7 @@ func RunWire(c *Ctx, sp *WireSpec) (int, error) {
 			swg.Add(1)
 			go func(sh, lo, hi int) {
 				defer swg.Done()
-				dir := filepath.Join(c.Work, fmt.Sprintf("sjudge%d", sh))
+				dir := filepath.Join(work, fmt.Sprintf("sjudge%d", sh))
 				_ = os.MkdirAll(dir, 0o755)
 				f, err := os.Create(filepath.Join(dir, "sevents.ndjson"))
 				if err != nil {
@@ -544,7 +583,7 @@ func RunWire(c *Ctx, sp *WireSpec) (int, error) {
 		nStreams, nBadStreams, nSEvents := 0, 0, 0
 		for sh := range srs {
 			if srs[sh].err != nil {
-				return 2, infra("stream trace shard %d: %v", sh, srs[sh].err)
+				return nil, 2, infra("stream trace shard %d: %v", sh, srs[sh].err)
 			}
 			if srs[sh].res == nil {
 				continue
@@ -567,7 +606,7 @@ func RunWire(c *Ctx, sp *WireSpec) (int, error) {
 			}
 		}
 		if nSEvents != len(streamLines) {
-			return 2, infra("stream trace validation consumed %d of %d events", nSEvents, len(streamLines))
+			return nil, 2, infra("stream trace validation consumed %d of %d events", nSEvents, len(streamLines))
 		}
 		streamCov["read_level_streams_validated"] = nStreams
 		streamCov["read_level_events"] = nSEvents
@@ -658,7 +697,7 @@ func RunWire(c *Ctx, sp *WireSpec) (int, error) {
 	for k, v := range streamCov {
 		cov[k] = v
 	}
-	return c.Finish(sp.Level, cov, sp.Assume), nil
+	return cov, 0, nil
 }
 
 func firstEventOf(lines [][]byte, cid int) []byte {
